@@ -324,6 +324,8 @@ class Cluster:
         # Locking is not required for this function.
         assert self._config.is_complete
         self._config.is_complete = False
+        # Resubmitting is an explicit request to run jobs again.
+        self._config.is_canceled = False
         self._config.submitted_jobs = self._config.num_jobs - len(jobs_to_resubmit)
         self._config.completed_jobs = 0
 
